@@ -212,6 +212,13 @@ func forgeSimple(g kyber.Group, G kyber.Point, gamma kyber.Scalar, x, y []kyber.
 	return pc.Put(&fSsa4{Zalpha: al})
 }
 
+// lastPairTranscript: challenges and responses of the transcript refPairVerify read last (the
+// harness runs one case at a time)
+var lastPairTranscript struct {
+	rho, sigma []kyber.Scalar
+	tau        kyber.Scalar
+}
+
 // refPairVerify: the harness' own pair-shuffle verifier (Neff 2004, as implemented by the library)
 // with the possibility to skip exactly one check.  skip: "", "bind-R", "bind-S", "bind-both", "eq33",
 // "eq34", "eq35", "simple-link" (with link = index of the skipped Theta equation).
@@ -317,6 +324,7 @@ func refPairVerify(e *shufEnv, xb, yb []kyber.Point, skip string, link, link2 in
 				return errors.New("(33)")
 			}
 		}
+		lastPairTranscript.rho, lastPairTranscript.sigma, lastPairTranscript.tau = v2.Zrho, p5.Zsigma, p5.Ztau
 		if skip != "eq34" && !g.Point().Add(p1.Lambda1, g.Point().Mul(p5.Ztau, e.G)).Equal(phi1) {
 			return errors.New("(34)")
 		}
